@@ -657,12 +657,76 @@ class Parser:
         return e
 
 
+def canon(n):
+    """spelling-only normalisation of a parsed body, applied before any translator looks at it (each rule rewrites a
+    statement into one with the same meaning for every state):
+      if (!c) A else B          ->  if (c) B else A            (both branches present; `if constexpr` too)
+      x = x op e;               ->  x op= e;                   (x a plain variable; op one of + - * | &)
+      x++;  /  for (..; ..; x++)->  ++x                        (the value of the expression is discarded)
+      for (auto it = C.begin(); it != C.end(); ++it) { T x = *it; ... }  with `it` not used again  ->  for (T x : C) { ... }"""
+    if isinstance(n, list):
+        return [canon(x) for x in n]
+    if not isinstance(n, tuple):
+        return n
+    n = tuple(canon(x) for x in n)
+    if len(n) == 5 and n[0] == 'if' and n[4] is not None and isinstance(n[2], tuple) and n[2][:2] == ('un', '!'):
+        return ('if', n[1], n[2][2], n[4], n[3])
+    if len(n) == 2 and n[0] == 'expr' and isinstance(n[1], tuple):
+        e = n[1]
+        if (len(e) == 4 and e[0] == 'assign' and e[1] == '=' and isinstance(e[3], tuple) and len(e[3]) == 4 and e[3][0] == 'bin'
+                and e[3][1] in ('+', '-', '*', '|', '&') and e[3][2] == e[2] and isinstance(e[2], tuple) and e[2][0] == 'id'):
+            return ('expr', ('assign', e[3][1] + '=', e[2], e[3][3]))
+        if len(e) == 3 and e[0] == 'post' and e[1] in ('++', '--'):
+            return ('expr', ('un', e[1], e[2]))
+    if len(n) == 5 and n[0] == 'for' and isinstance(n[3], tuple) and len(n[3]) == 3 and n[3][0] == 'post' and n[3][1] in ('++', '--'):
+        n = ('for', n[1], n[2], ('un', n[3][1], n[3][2]), n[4])
+    # for (auto it = C.begin(); it != C.end(); ++it) { T x = *it; REST }   with `it` not mentioned in REST   ->   for (T x : C) { REST }
+    if (len(n) == 5 and n[0] == 'for' and isinstance(n[1], tuple) and n[1][0] == 'decl' and len(n[1][2]) == 1 and isinstance(n[4], tuple)
+            and n[4][0] == 'block' and n[4][1]):
+        it, init = n[1][2][0]
+        first = n[4][1][0]
+        if (isinstance(init, tuple) and init[0] == 'call' and init[2] == [] and init[1][0] == 'member' and init[1][2] == 'begin' and not init[1][3]
+                and n[2] == ('bin', '!=', ('id', it), ('call', ('member', init[1][1], 'end', False), []))
+                and n[3] == ('un', '++', ('id', it))
+                and isinstance(first, tuple) and first[0] == 'decl' and len(first[2]) == 1 and first[2][0][1] == ('un', '*', ('id', it))
+                and not _mentions(n[4][1][1:], it)):
+            return ('rangefor', first[2][0][0], init[1][1], ('block', n[4][1][1:]))
+    return n
+
+
+def _mentions(n, name):
+    if isinstance(n, (list, tuple)):
+        if isinstance(n, tuple) and n == ('id', name):
+            return True
+        return any(_mentions(x, name) for x in n)
+    return n == name
+
+
+EXPAND_ALIASES = True       # a translator that reads the aliases itself (vptrctor.py) switches this off
+
+
+def expand_local_aliases(text):
+    """`using NAME = TYPE;` inside a function body: the declaration is dropped and NAME is replaced by TYPE in the rest of
+    the body (a type alias is another spelling of the type)"""
+    while True:
+        m = re.search(r'\busing\s+(\w+)\s*=\s*([^;{}]+);', text)
+        if not m:
+            return text
+        name, ty = m.group(1), m.group(2).strip()
+        if re.search(r'\b%s\b' % re.escape(name), ty):
+            return text
+        rest = re.sub(r'(?<![\w:.>])%s\b' % re.escape(name), lambda _: ty, text[m.end():])
+        text = text[:m.start()] + rest
+
+
 def parse_function_body(body_text, template_names=()):
+    if EXPAND_ALIASES:
+        body_text = expand_local_aliases(body_text)
     p = Parser(tokenize(body_text), template_names)
     blk = p.parse_block()
     if p.peek()[0] != 'eof':
         p.err('trailing tokens after function body')
-    return blk
+    return canon(blk)
 
 
 def show(e):
